@@ -102,7 +102,10 @@ def fidelity_case(draw):
     if draw(st.integers(0, 3)) == 0:
         p_, q_ = draw(st.integers(1, 3)), draw(st.integers(2, 3))
         batch = {"shape": [p_, q_], "pos": [draw(st.integers(0, p_ - 1)), draw(st.integers(0, q_ - 1))],
-                 "order": draw(st.sampled_from(["C", "F", "T"]))}
+                 "order": draw(st.sampled_from(["C", "F", "T"])),
+                 # the neighbouring cells hold the same sea turned by whole bins, or very different, sharply peaked
+                 # moments (the repository's hard cases, turned): nothing may carry over from one cell to the next
+                 "others": draw(st.sampled_from(["turned", "hard"]))}
     return {"N": N, **draw(resolved_moments(N)), "prior_solver_config": prior, "batch": batch}
 
 
@@ -132,7 +135,10 @@ def run_fidelity(c):
         for i in range(p_):
             for j in range(q_):
                 shift = 0 if [i, j] == b["pos"] else (1 + i * q_ + j)
-                cells[i, j] = turned(m, shift * math.radians(step))
+                if b.get("others") == "hard" and shift:
+                    cells[i, j] = turned(np.array(GM.HARD[shift % len(GM.HARD)]), shift * math.radians(step))
+                else:
+                    cells[i, j] = turned(m, shift * math.radians(step))
         if b["order"] == "F":
             a = [np.asfortranarray(cells[..., k]) for k in range(4)]
         elif b["order"] == "T":
@@ -147,14 +153,16 @@ def run_fidelity(c):
             # every cell of the batch holds the estimate for ITS moments
             for i in range(p_):
                 for j in range(q_):
+                    if b.get("others") == "hard" and [i, j] != b["pos"]:
+                        continue              # the hard cases are not resolved seas: nothing is asserted about them here
                     mc = moments_of(Dall[i, j], th, step)
                     if name == "mem":
                         refc = mem_reference(cells[i, j], th) * math.pi / 180
                         require(np.abs(Dall[i, j] - refc).max() <= 1e-9 * refc.max(), "batch_cell_mem_equals_closed_form_of_its_moments",
                                 f"N={N} cell=({i},{j}) of {b['shape']} order={b['order']}")
-                    elif name == "newton":
+                    else:
                         require(float(np.linalg.norm(mc - cells[i, j])) <= 0.0101, "batch_cell_mem2_reproduces_its_moments",
-                                f"N={N} cell=({i},{j}) of {b['shape']} order={b['order']} recomputed={mc.tolist()} moments={cells[i, j].tolist()}")
+                                f"{name}: N={N} others={b.get('others')} cell=({i},{j}) of {b['shape']} order={b['order']} recomputed={mc.tolist()} moments={cells[i, j].tolist()}")
             D = Dall[b["pos"][0], b["pos"][1]]
         else:
             D = Dall[0]
@@ -184,6 +192,7 @@ def run_fidelity(c):
         classes.append("after_a_call_with_optional_solver_settings")
     if bt:
         classes.append("cell_of_a_batch_order_" + bt["order"])
+        classes.append("batch_neighbours_" + bt.get("others", "turned"))
     R = math.hypot(m[0], m[1])
     return {"nontrivial": R > 0.05, "classes": classes}
 
